@@ -34,9 +34,10 @@ TAG = "subtomo_mean"
 
 FIELDS = {
     "tomo_id": st.one_of(st.integers(1, 3), st.integers(1, 3), st.sampled_from([1, 2, 11, 12, 21, 111])).map(float),  # also numbers of two and three digits
-    "object_id": st.one_of(st.integers(1, 5), st.integers(1, 5), st.sampled_from([1, 2, 3, 11, 12, 13, 21, 111])).map(float),
-    "class": st.integers(1, 3).map(float),
-    "score": st.one_of(st.sampled_from([0.1, 0.3, 0.5, 0.9]), gen.finite(-1, 1)),
+    "object_id": st.one_of(st.integers(1, 5), st.integers(1, 5), st.sampled_from([0, 1, 2, 3, 11, 12, 13, 21, 111])).map(float),
+    "class": st.integers(0, 3).map(float),  # 0 = unclassified / unassigned is a value like any other
+    # scores: repeated values, arbitrary ones, and distinct doubles closer together than single precision resolves
+    "score": st.one_of(st.sampled_from([0.1, 0.3, 0.5, 0.9]), gen.finite(-1, 1), st.sampled_from([0.5, 0.50000001, 0.50000002, 0.125, 0.1250000001, 0.9, 0.9000000001])),
     "geom1": st.one_of(gen.small_int, st.just(float("nan"))),
     "geom2": st.sampled_from([1.0, 2.0, 3.0, 7.5, 1.000001, 7.50001, 2.0000000001]),
     "geom3": gen.small_int,
@@ -106,11 +107,20 @@ def corner_cases(tier):
     yield {"tables": [t], "ops": [{"op": "split", "i": 0, "field": "tomo_id"}, {"op": "merge_dropdup", "i": 0, "which": [1, 2, 0]},
                                   {"op": "subset", "i": 3, "field": "class", "picks": [1, 0], "absent": False, "scalar": False, "reset_index": False, "return_df": False},
                                   {"op": "renumber_particles", "i": 4}]}
+    # unassigned particles (object / class 0) removed or selected with the value given as a plain number
+    rows0 = [list(r_) for r_ in rows]
+    rows0[1][IX["object_id"]] = 0.0
+    rows0[3][IX["object_id"]] = 0.0
+    rows0[2][IX["class"]] = 0.0
+    t0 = {"cols": C, "rows": rows0, "bulk": None, "index": "default"}
+    for fld in ("object_id", "class"):
+        for opn in ("remove", "subset"):
+            yield {"tables": [t0], "ops": [{"op": opn, "i": 0, "field": fld, "picks": [{"object_id": 1, "class": 2}[fld]], "as_array": False, "absent": False, "scalar": True, "reset_index": True, "return_df": False}]}
 
 
 def _bulk(rng, n, first_id):
     a = np.zeros((n, 20))
-    a[:, IX["score"]] = rng.choice([0.1, 0.3, 0.5, 0.9, 0.7], n)
+    a[:, IX["score"]] = rng.choice([0.1, 0.3, 0.5, 0.9, 0.7, 0.50000001, 0.50000002, 0.9000000001], n)
     a[:, IX["subtomo_id"]] = rng.permutation(np.arange(n) * 2 + first_id + 1)
     a[:, IX["tomo_id"]] = rng.integers(1, 4, n)
     a[:, IX["object_id"]] = rng.integers(1, 6, n)
@@ -210,6 +220,8 @@ def run(case):
             dv = distinct(rows, f)
             vals = [dv[p % len(dv)] for p in o["picks"]] if dv else []
             vals = list(dict.fromkeys(vals))
+            if o["scalar"] and 0.0 in dv and step % 2 == 0:
+                vals = [0.0]  # the typical clean-up request: drop / select the unassigned ones, given as a plain number
             if o["absent"] or not vals:
                 vals.append(99.0)
             if len(o["picks"]) >= 8:
